@@ -26,9 +26,10 @@ def expected_column(vals, masks, canary=None):
 class Compare(Job):
     prop = "C04"
 
-    def __init__(self, k, n, masked, via="qartod_compare", dtype="float64", canary=None):
+    def __init__(self, k, n, masked, via="qartod_compare", dtype="float64", canary=None, nan=False):
         self.k, self.n, self.masked, self.via, self.dtype, self.canary = k, n, masked, via, dtype, canary
-        self.name = f"{via} k={k} n={n} carrier={'masked' if masked else 'plain'} dtype={dtype}" + (
+        self.nan = nan       # float vectors may hold NaN (a value that is not a flag)
+        self.name = f"{via} k={k} n={n} carrier={'masked' if masked else 'plain'} dtype={dtype}{' with NaN entries' if nan else ''}" + (
             f" CANARY={canary}" if canary else "")
         if canary:
             self.expect_canary_sat = True
@@ -40,7 +41,7 @@ class Compare(Job):
     def declare(self, V):
         S = Struct()
         if self.dtype == "float64":
-            S.v = [[V.float(f"v{j}_{i}", lo=-16, hi=16) for i in range(self.n)] for j in range(self.k)]
+            S.v = [[V.float(f"v{j}_{i}", lo=-16, hi=16, nan=self.nan) for i in range(self.n)] for j in range(self.k)]
         else:
             S.v = [[V.int(f"v{j}_{i}", lo=0, hi=255) for i in range(self.n)] for j in range(self.k)]
         S.m = [[V.bool(f"m{j}_{i}") for i in range(self.n)] for j in range(self.k)] if self.masked else None
@@ -71,6 +72,9 @@ class Compare(Job):
         for i in range(self.n):
             vals = [self._val(S.v[j][i]) for j in range(self.k)]
             masks = [S.m[j][i].b if self.masked else FALSE for j in range(self.k)]
+            if self.nan:
+                # NaN is not a flag: it contributes nothing, like a masked entry
+                masks = [mk_or(m, S.v[j][i].nan) for j, m in enumerate(masks)]
             obl.append((f"roll-up[{i}] is the worst evaluated flag of column {i}",
                         mk_eq(out.flags[i], expected_column(vals, masks, self.canary))))
         return obl
@@ -145,6 +149,9 @@ def jobs(tier):
                 continue
             for masked in (False, True):
                 out.append(Compare(k, n, masked))
+    out.append(Compare(2, 2, False, nan=True))
+    out.append(Compare(1, 3, False, nan=True))
+    out.append(Compare(2, 2, True, nan=True))
     out.append(Compare(2, 2, False, dtype="uint8"))
     out.append(Compare(3, 1, False, dtype="uint8"))
     out.append(Compare(2, 2, True, via="aggregate"))
